@@ -89,12 +89,19 @@ def tv_vm(run, stage, n, seed_off=0):
     return ok
 
 
+def mc_chain(run, scope, items, invs=("Refines", "CodeWellFormed")):
+    """MC: L1 meaning == L2 chain (L1 lexer -> compiler machine -> VM machine) on every program of a Gen_Prog family."""
+    return run.mc("MC_Chain", cfg(constants=dict(Scope=scope, MaxItems=items), invariants=invs), label="MC_Chain(%s,%d)" % (scope, items), timeout=2400)
+
+
 # ------------------------------------------------------------------------------------------------ C02..C04
 def c02(run):
-    run.rule = ("GEN: all programs 'prelude; def a { <= N items }; print' over declarations with/without initialiser, embedded "
+    run.rule = ("MC: MC_Chain — the L1 meaning equals the L2 chain (L1 lexer -> compiler machine -> VM machine) on every program of the family with a block body of <= 1 item "
+                "(2 thorough). GEN: all programs 'prelude; def a { <= N items }; print' over declarations with/without initialiser, embedded "
                 "assignments, shadowing, field/variable name reuse and nested blocks (N=2 quick, 3 thorough), each with the meaning "
                 "BclSem gives it (prints, block tree, compile/runtime error), run through bcl.Interpret. Non-trivial = block body of "
                 "at least two items; distinct by source text.")
+    mc_chain(run, "scope", 1 if run.quick else 2)
     run.gen_replay("Gen_Prog", gen_cfg(dict(Scope="scope", MaxItems=2)), ["replay-prog"], "C02:scope")
     tv_vm(run, "C02:vm", 500 if run.quick else 5000, seed_off=2)
     run.exhaustive = True
@@ -106,6 +113,7 @@ def c03(run):
                 "compared: the []Block tree incl. Go dynamic types and the blocks returned with a runtime error. "
                 "Non-trivial = at least two block definitions; distinct by source text.")
     run.assumptions += ["programs never read a child block as a value nor assign a field named like an existing child key (undefined by the property)"]
+    mc_chain(run, "blocks", 2)
     run.gen_replay("Gen_Prog", gen_cfg(dict(Scope="blocks", MaxItems=2 if run.quick else 3)), ["replay-prog"], "C03:blocks")
     if not run.quick:
         run.gen_replay("Gen_Prog", gen_cfg(dict(Scope="scope", MaxItems=2)), ["replay-prog"], "C03:scope")
@@ -117,6 +125,8 @@ def c04(run):
     run.rule = ("GEN: all sequences of <= N toplevel items (N=3 quick, 4 thorough) over 4 block definitions and 18 bind forms "
                 "(every selector incl. an unknown one x every target incl. an unknown one); compared: binding kind and blocks, "
                 "warning count, error class. Non-trivial = at least one bind and one block; distinct by source text.")
+    mc_chain(run, "bind", 3)
+    mc_chain(run, "bindmany", 5)
     run.gen_replay("Gen_Prog", gen_cfg(dict(Scope="bind", MaxItems=3 if run.quick else 4)), ["replay-prog"], "C04:bind")
     run.gen_replay("Gen_Prog", gen_cfg(dict(Scope="bindmany", MaxItems=5 if run.quick else 6)), ["replay-prog"], "C04:bindmany")
     tv_vm(run, "C04:vm", 500 if run.quick else 5000, seed_off=4)
@@ -273,6 +283,9 @@ def c10(run):
                 "expression trees with and/or chains) are decoded by BclFormat and explored by the abstract machine of BclISA along both successors of every JFALSE; "
                 "invariants: exact tiling, RET last, operand kinds and ranges, live slots, jumps on boundaries, balanced blocks, depth >= what each instruction needs, "
                 "0 at RET, and (Unique) the same depth on every path into an offset. Non-trivial = every accepted program (distinct by source).")
+    # design level: the compiler machine's code is well-formed along every path for all programs of two families
+    mc_chain(run, "bind", 3, invs=("CodeWellFormed",))
+    mc_chain(run, "blocks", 2, invs=("CodeWellFormed",))
     # programs whose slot numbers, POPN counts and constant indices cross 240/241 and 255/256 (all of them, no stride)
     d0, n0 = real_dumps(run, "C10:scale", dump_sources(run)[:1], 100, stride=1, maxlen=20000)
     tlc_on_dumps(run, "C10:scale-paths", d0, n0, ("WellFormed", "Unique"))
